@@ -54,8 +54,8 @@ pub fn run(ctx: &Ctx) -> Outcome {
         let mut lmax = lmax;
         if bs <= 32 {
             // long calls: past 8 and 16 blocks whatever the parallel width
-            lens.extend(if block_only { vec![9 * bs, 17 * bs] } else { long_lengths(bs) });
-            lmax = lmax.max(17 * bs + 1);
+            lens.extend(if block_only { long_block_lengths(bs) } else { long_lengths(bs) });
+            lmax = lmax.max(*lens.iter().max().unwrap());
         }
         let fes = family_frontends(cfg, fam, *dir);
         let iv_len = if *fam == "ige" { 2 * bs } else { bs };
